@@ -10,6 +10,8 @@ def cases(tier, rng):
     over = {}
     if PROP == "C15":
         yield from c15_switch_cases(tier, rng)
+    if PROP in ("C14", "C10"):
+        yield from mixed.fault_matrix_cases(tier, rng)
     yield from mixed.mixed_cases(tier, rng, nt, nh, over, fault_tables=FAULT_TABLES)
 
 
